@@ -20,21 +20,49 @@
 
 struct obj { nsync_mu mu; nsync_cv cv; int refs; int v; int done[RT_MAXT]; long pad[4]; };
 #define MAXOPS 6
+#define MAXOPS2 14
 static struct {
 	struct obj *o;
-	int nthreads, nops[RT_MAXT], ops[RT_MAXT][MAXOPS], dl[RT_MAXT][MAXOPS];
+	int nthreads, nops[RT_MAXT], ops[RT_MAXT][MAXOPS2], dl[RT_MAXT][MAXOPS2];
 	int freed_by;
-	int kind;                    /* 0 = random programs; 1 = directed: signal in a read section with a reader cv waiter and an nsync_wait_n waiter queued */
+	int kind;                    /* 0 = random programs; 1 = directed: signal in a read section with a reader cv waiter and an nsync_wait_n waiter queued;
+	                                2 = lock traffic only: longer programs of lock / trylock / rlock / rtrylock sections (hand-offs, designated wakers,
+	                                    bargers, late lockers), and half of the threads drop their reference as try-lock pollers (never queued) */
+	int unref_by_trylock[RT_MAXT];
+	int in_release[RT_MAXT];     /* the thread is inside nsync_mu_unlock / nsync_mu_runlock on the object */
+	int released[RT_MAXT];       /* ... and its CAS that gives the lock up has succeeded, but the call has not returned yet */
+	int freeze_budget;
 	int k1_waitn_reader, k1_bcast, k1_go;
 	int final_reader[RT_MAXT];   /* this thread ends with a READ section in which it only marks itself done */
 } S;
-enum { CV_FREES = 0, CV_UNREF_SLEPT, CV_OPS, CV_WAIT_SLEPT, CV_LAST_WITH_QUEUE, CV_FREED_BY_MAIN, CV_DIRECTED_FREES };
+enum { CV_FREES = 0, CV_UNREF_SLEPT, CV_OPS, CV_WAIT_SLEPT, CV_LAST_WITH_QUEUE, CV_FREED_BY_MAIN, CV_DIRECTED_FREES, CV_UNREF_TRY, CV_KIND2, CV_FROZEN };
 enum { O_W, O_R, O_TRY, O_RTRY, O_CVWAIT, O_MUWAIT, O_SIGNAL, O_CVWAIT_R, O_MUWAIT_R, O_BCAST, O_WAITN, O_WAITN_R, O_SIGNAL_IN_R, O_NOPS };
 static void lk (void *m) { nsync_mu_lock ((nsync_mu *) m); }
 static void ulk (void *m) { nsync_mu_unlock ((nsync_mu *) m); }
 static void rlk (void *m) { nsync_mu_rlock ((nsync_mu *) m); }
 static void rulk (void *m) { nsync_mu_runlock ((nsync_mu *) m); }
 static int cond_v (const void *p) { return (*(const int *) p > 1000000); }   /* never true */
+
+/* The adversarial schedule for the mutex clause (Mode B): a thread whose release has given the lock up (its CAS removed its hold
+   from the word) but whose nsync_mu_unlock / nsync_mu_runlock call has not returned yet is FROZEN while anybody else can run (for
+   up to 48 scheduling decisions): the others get the chance to acquire, find they are the last user, release and free the object
+   before the releasing thread takes its next step.  The verdict is still AddressSanitizer's.  */
+static void word_cb (int idx, int op, uint32_t old_v, uint32_t new_v, int ok) {
+	int self = rt_self ();
+	(void) idx;
+	if (!ok || self < 0 || op > 4 || !S.in_release[self]) return;
+	if (((old_v & SC_MU_WLOCK) && !(new_v & SC_MU_WLOCK)) || (new_v & SC_MU_RLOCK_FIELD) < (old_v & SC_MU_RLOCK_FIELD)) { S.released[self] = 1; S.freeze_budget = 48; rt_cover (CV_FROZEN); }
+}
+static int adversary (int self, int forced, const int *run, int n) {
+	int i, frozen = 0, first = -1;
+	for (i = 0; i < n; i++) { if (S.released[run[i]]) frozen++; else if (first < 0 || run[i] == self) first = (run[i] == self && forced) ? first : run[i]; }
+	if (frozen == 0 || first < 0 || S.freeze_budget <= 0) return (-1);
+	S.freeze_budget--;
+	for (i = 0; i < n; i++) if (run[i] == self && !forced && !S.released[self]) return (self);    /* long runs: lock, unref, unlock, free inside the window */
+	return (first);
+}
+#define REL_BEGIN(tid) (S.in_release[tid] = 1)
+#define REL_END(tid) (S.released[tid] = 0, S.in_release[tid] = 0)
 
 /* directed round: T0 reader in nsync_cv_wait, T1 in nsync_wait_n on the same cv, T2 signals from inside a read section,
    T3 takes the mutex only by try-lock and frees the object as soon as it finds everybody done */
@@ -89,10 +117,10 @@ static void body (int tid) {
 	for (i = 0; i < S.nops[tid]; i++) {
 		rt_cover (CV_OPS);
 		switch (S.ops[tid][i]) {
-		case O_W: nsync_mu_lock (&o->mu); o->v++; rt_point ("w"); nsync_mu_unlock (&o->mu); break;
-		case O_R: nsync_mu_rlock (&o->mu); (void) o->v; rt_point ("r"); nsync_mu_runlock (&o->mu); break;
-		case O_TRY: if (nsync_mu_trylock (&o->mu)) { o->v++; nsync_mu_unlock (&o->mu); } break;
-		case O_RTRY: if (nsync_mu_rtrylock (&o->mu)) { nsync_mu_runlock (&o->mu); } break;
+		case O_W: nsync_mu_lock (&o->mu); o->v++; rt_point ("w"); REL_BEGIN (tid); nsync_mu_unlock (&o->mu); REL_END (tid); break;
+		case O_R: nsync_mu_rlock (&o->mu); (void) o->v; rt_point ("r"); REL_BEGIN (tid); nsync_mu_runlock (&o->mu); REL_END (tid); break;
+		case O_TRY: if (nsync_mu_trylock (&o->mu)) { o->v++; REL_BEGIN (tid); nsync_mu_unlock (&o->mu); REL_END (tid); } break;
+		case O_RTRY: if (nsync_mu_rtrylock (&o->mu)) { REL_BEGIN (tid); nsync_mu_runlock (&o->mu); REL_END (tid); } break;
 		case O_CVWAIT: nsync_mu_lock (&o->mu); RT_OP ("nsync_cv_wait_with_deadline", nsync_cv_wait_with_deadline (&o->cv, &o->mu, rt_deadline_in (S.dl[tid][i]), NULL)); if (rt_op_sleeps ()) rt_cover (CV_WAIT_SLEPT); nsync_mu_unlock (&o->mu); break;
 		case O_CVWAIT_R: nsync_mu_rlock (&o->mu); RT_OP ("nsync_cv_wait_with_deadline", nsync_cv_wait_with_deadline (&o->cv, &o->mu, rt_deadline_in (S.dl[tid][i]), NULL)); nsync_mu_runlock (&o->mu); break;
 		case O_MUWAIT: nsync_mu_lock (&o->mu); RT_OP ("nsync_mu_wait_with_deadline", nsync_mu_wait_with_deadline (&o->mu, &cond_v, &o->v, NULL, rt_deadline_in (S.dl[tid][i]), NULL)); if (rt_op_sleeps ()) rt_cover (CV_WAIT_SLEPT); nsync_mu_unlock (&o->mu); break;
@@ -116,18 +144,28 @@ static void body (int tid) {
 		RT_OP ("nsync_mu_rlock", nsync_mu_rlock (&o->mu));
 		o->done[tid] = 1;
 		rt_point ("final-read-section");
+		REL_BEGIN (tid);
 		RT_OP ("nsync_mu_runlock", nsync_mu_runlock (&o->mu));
+		REL_END (tid);
 		rt_ev ((uint32_t) (0x40 | tid));
 		return;
 	}
 	/* drop the reference under the write lock */
-	RT_OP ("nsync_mu_lock", nsync_mu_lock (&o->mu));
-	if (rt_op_sleeps ()) { rt_cover (CV_UNREF_SLEPT); rt_mark_nontrivial (); }
+	if (S.unref_by_trylock[tid]) {
+		int spins = 0, r = 0;
+		while (!r) { RT_OP ("nsync_mu_trylock", r = nsync_mu_trylock (&o->mu)); if (!r) { rt_yield (); if (!rt_mode_b () && (++spins & 7) == 0) rt_sleep_us (5); if (spins > 50000000) rt_fatal ("try-lock unref did not finish"); } }
+		rt_cover (CV_UNREF_TRY);
+	} else {
+		RT_OP ("nsync_mu_lock", nsync_mu_lock (&o->mu));
+		if (rt_op_sleeps ()) { rt_cover (CV_UNREF_SLEPT); rt_mark_nontrivial (); }
+	}
 	o->done[tid] = 1;
 	last = 1;
 	for (i = 0; i < S.nthreads; i++) if (!o->done[i]) last = 0;
 	if (last && (sc_word (&o->mu.word) & 4u)) rt_cover (CV_LAST_WITH_QUEUE);
+	REL_BEGIN (tid);
 	RT_OP ("nsync_mu_unlock", nsync_mu_unlock (&o->mu));
+	REL_END (tid);
 	if (last) { rt_cover (CV_FREES); S.freed_by = tid; free (o); }
 	rt_ev ((uint32_t) (last << 4 | tid));
 }
@@ -139,18 +177,23 @@ static int setup (uint64_t seed) {
 	memset (S.o, 0, sizeof (*S.o));
 	nsync_mu_init (&S.o->mu); nsync_cv_init (&S.o->cv);
 	S.nthreads = 2 + (int) rt_rand_n (3);
-	S.k1_go = 0; S.kind = (rt_rand_n (4) == 0); S.k1_waitn_reader = (int) rt_rand_n (2); S.k1_bcast = (int) rt_rand_n (2);
+	S.k1_go = 0; { unsigned kk = rt_rand_n (4); S.kind = kk == 0 ? 1 : kk == 1 ? 2 : 0; } S.k1_waitn_reader = (int) rt_rand_n (2); S.k1_bcast = (int) rt_rand_n (2);
 	if (S.kind == 1) S.nthreads = 4;
+	if (S.kind == 2) { S.nthreads = 3 + (int) rt_rand_n (2); rt_cover (CV_KIND2); }
 	S.o->refs = S.nthreads; S.freed_by = -1;
+	memset (S.in_release, 0, sizeof (S.in_release)); memset (S.released, 0, sizeof (S.released)); S.freeze_budget = 0;
+	rt_watch_word (0, &S.o->mu.word, &word_cb);
 	for (t = 0; t < RT_MAXT; t++) S.final_reader[t] = 0;
 	for (t = 1; t < S.nthreads; t++) S.final_reader[t] = (rt_rand_n (3) == 0);     /* thread 0 always ends as a writer */
+	for (t = 0; t < RT_MAXT; t++) S.unref_by_trylock[t] = 0;
 	for (t = 0; t < S.nthreads; t++) {
 		S.nops[t] = (int) rt_rand_n (MAXOPS + 1);
-		for (i = 0; i < S.nops[t]; i++) { S.ops[t][i] = (int) rt_rand_n (O_NOPS); S.dl[t][i] = rt_mode_b () ? (int) rt_rand_n (3000) : (int) rt_rand_n (100000); rt_ev ((uint32_t) S.ops[t][i]); }
+		if (S.kind == 2) { S.nops[t] = 2 + (int) rt_rand_n (MAXOPS2 - 1); S.unref_by_trylock[t] = (int) rt_rand_n (2); S.final_reader[t] = 0; }
+		for (i = 0; i < S.nops[t]; i++) { S.ops[t][i] = (int) rt_rand_n (O_NOPS); if (S.kind == 2) { static const int lk_ops[6] = { O_W, O_W, O_W, O_TRY, O_R, O_RTRY }; S.ops[t][i] = lk_ops[rt_rand_n (6)]; } S.dl[t][i] = rt_mode_b () ? (int) rt_rand_n (3000) : (int) rt_rand_n (100000); rt_ev ((uint32_t) S.ops[t][i]); }
 	}
 	return (S.nthreads);
 }
-static void check (void) { if (S.freed_by < 0) { rt_cover (CV_FREED_BY_MAIN); free (S.o); } }
+static void check (void) { rt_watch_word (0, NULL, NULL); if (S.freed_by < 0) { rt_cover (CV_FREED_BY_MAIN); free (S.o); } }
 static void describe (FILE *f) {
 	static const char *const on[] = { "W", "R", "try", "rtry", "cvwait", "muwait", "signal", "cvwait(r)", "muwait(r)", "bcast", "waitn", "waitn(r)", "signal-in-rsec" }; int t, i;
 	if (S.kind == 1) { fprintf (f, "{\"directed\":\"T0 reader cv_wait, T1 wait_n(%s), T2 %s inside a read section, T3 try-lock + free\",\"freed_by\":%d}", S.k1_waitn_reader ? "reader" : "writer", S.k1_bcast ? "broadcast" : "2 signals", S.freed_by); return; }
@@ -158,5 +201,5 @@ static void describe (FILE *f) {
 	for (t = 0; t < S.nthreads; t++) { fprintf (f, "%s\"", t ? "," : ""); for (i = 0; i < S.nops[t]; i++) fprintf (f, "%s ", on[S.ops[t][i]]); fprintf (f, "unref\""); }
 	fprintf (f, "],\"freed_by\":%d}", S.freed_by);
 }
-static void pinit (void) { rt_cover_name (CV_FREES, "objects_freed_by_last_user"); rt_cover_name (CV_UNREF_SLEPT, "final_acquisitions_that_slept"); rt_cover_name (CV_OPS, "operations"); rt_cover_name (CV_WAIT_SLEPT, "waits_that_slept"); rt_cover_name (CV_LAST_WITH_QUEUE, "last_unref_with_waiting_bit_set"); rt_cover_name (CV_FREED_BY_MAIN, "rounds_where_the_last_to_finish_was_a_reader"); rt_cover_name (CV_DIRECTED_FREES, "directed_rounds_freed_by_trylocker"); }
-rt_scenario rt_scen = { "refcount", "C13", 4, &pinit, &setup, &body, &check, NULL, &describe, NULL, NULL, NULL };
+static void pinit (void) { rt_cover_name (CV_UNREF_TRY, "references_dropped_by_trylock_pollers"); rt_cover_name (CV_KIND2, "lock_traffic_only_rounds"); rt_cover_name (CV_FROZEN, "releases_frozen_after_giving_the_lock_up"); rt_cover_name (CV_FREES, "objects_freed_by_last_user"); rt_cover_name (CV_UNREF_SLEPT, "final_acquisitions_that_slept"); rt_cover_name (CV_OPS, "operations"); rt_cover_name (CV_WAIT_SLEPT, "waits_that_slept"); rt_cover_name (CV_LAST_WITH_QUEUE, "last_unref_with_waiting_bit_set"); rt_cover_name (CV_FREED_BY_MAIN, "rounds_where_the_last_to_finish_was_a_reader"); rt_cover_name (CV_DIRECTED_FREES, "directed_rounds_freed_by_trylocker"); }
+rt_scenario rt_scen = { "refcount", "C13", 4, &pinit, &setup, &body, &check, NULL, &describe, NULL, NULL, &adversary, NULL };
